@@ -349,9 +349,13 @@ def execute(hist, stop_at_first=True, known=None, collect=True):
             if stop:
                 return
 
-    def check_subjacs(opi, label):
+    def check_subjacs(opi, label, only_comps=None):
         r = ref.get(cur, cur_point, "lin")
         live = obs.read_subjacs(prob)
+        if only_comps is not None:
+            live = {k: v for k, v in live.items() if k[0].rsplit(".", 1)[0] in only_comps}
+            r = dict(r)
+            r["lin"] = {k: v for k, v in r["lin"].items() if k in live}
         rowscale = {}
         for (o, w), v in r["lin"].items():
             c = o.rsplit(".", 1)[0]
@@ -469,6 +473,10 @@ def execute(hist, stop_at_first=True, known=None, collect=True):
                 fired("%s_excursion" % op["method"])
                 log.add("check_partials", op["method"], len(data))
                 check_outputs(opi, "check_partials")
+                if not stop:
+                    # check_partials re-linearises the components it visits: what it leaves in their Jacobian
+                    # storage (and reports to the user as the analytic derivative) must be the fresh value too
+                    check_subjacs(opi, "check_partials", only_comps=set(data.keys()))
             elif kind == "check_totals":
                 of = [o for o in op["of"] if o in model.of] or list(model.of)[:1]
                 wrt = [w for w in op["wrt"] if w in model.wrt] or list(model.wrt)[:1]
